@@ -144,6 +144,19 @@ def rich_world(seed, n_chroms=6, genes_per_chrom=3, groups=3, multimappers=True,
                                 truth={"multimap": True, "class": "primary-ambiguous-within-one-gene"})
                     w.make_read(other, [(free, free + 150), (free + 700, free + 850), (free + 1400, free + 1550)], name=name, flag=256, mapq=0,
                                 truth={"multimap": True, "class": "secondary-intergenic"})
+            # ... and reads whose other alignment is a CONSISTENT one (mono-exonic, inside the single-exon gene of another chromosome)
+            mono = [g for g in w.genes if g.id == "M2" and g.transcripts]
+            if idx and mono:
+                i0 = idx[0]
+                me = mono[0].transcripts[0].exons[0]
+                if me[1] - me[0] > 260:
+                    for k in range(5):
+                        name = "mmcons%04d" % k
+                        a, b = bb[i0], bb[i0 + 1]
+                        w.make_read(src.chrom, [(a[0] + 25, a[1]), (b[0], b[1] - 25)], name=name, flag=0, mapq=60,
+                                    truth={"multimap": True, "class": "primary-ambiguous-within-one-gene"})
+                        w.make_read(mono[0].chrom, [(me[0] + 20 + k, me[0] + 240)], name=name, flag=256, mapq=60,
+                                    truth={"multimap": True, "class": "secondary-consistent-mono"})
         fam = [g for g in w.genes if g.id == "G1_1" or g.id.startswith("P")]
         if len(fam) >= 2:
             # ties: no alignment is primary, all are equally good -> the read stays on several loci
